@@ -83,6 +83,26 @@ enum { H_C_ARITH, H_C_PTR, H_C_ENUM, H_C_NESTED, H_C_ANON, H_C_NESTED_U, H_C_ANO
 #define H_IS_ANON(cls) ((cls) == H_C_ANON || (cls) == H_C_ANON_U)
 #define H_IS_UNION(cls) ((cls) >= H_C_NESTED_U)
 static const int h_shape[H_N] = H_SHAPE;
+/* -DH_KCLS={..}: per outer member of arithmetic type its SIZE CLASS, concrete (0 = any of the 15 types, symbolic):
+   1 char/signed char/unsigned char  2 _Bool  3 short/unsigned short  4 int/unsigned  5 long/unsigned long/long
+   long/unsigned long long  6 float  7 double  8 long double.  Which type of the class: symbolic.  With concrete
+   sizes c2mir's divisions/multiplications by sizes and alignments are by constants (the solver needs minutes
+   per query otherwise). */
+#ifndef H_KCLS
+#define H_KCLS {0}
+#endif
+#ifndef H_KSUB
+#define H_KSUB {0, 0}
+#endif
+/* -DH_EXCL=mask: re-prove WITHOUT the declarations of a recorded finding: 1 unnamed bit-fields of non-zero width
+   (c2mir lets them raise the alignment of the aggregate), 2 zero-width bit-fields (a leading one occupies a
+   storage unit; in a struct they raise the alignment), 4 a bit-field directly after a bit-field of a narrower
+   declared type (c2mir can put it into the first unit at a position computed relative to the previous unit) */
+#ifndef H_EXCL
+#define H_EXCL 0
+#endif
+static const int h_kcls[H_N] = H_KCLS;
+static const int h_ksub[H_NSUB] = H_KSUB; /* the same for the members of nested/anonymous aggregates */
 
 /* ---------------- storage for the c2mir graph ----------------
    One static array per component type and pointers to their ELEMENTS: CBMC then keeps every pointer in the
@@ -115,10 +135,22 @@ static const enum basic_type h_bt[SV_NSCALAR] = {
   [SV_LLONG] = TP_LLONG, [SV_ULLONG] = TP_ULLONG, [SV_FLOAT] = TP_FLOAT, [SV_DOUBLE] = TP_DOUBLE, [SV_LDOUBLE] = TP_LDOUBLE};
 
 /* an arbitrary valid member description of class CLS (H_C_ARITH/PTR/ENUM), array or not */
-static void h_nd_scalar (sv_member *m, int cls, int is_arr) {
+static void h_nd_scalar (sv_member *m, int cls, int is_arr, int kcls) {
   if (cls == H_C_ARITH) {
-    int k = (int) nd_below (15); /* the 12 integer kinds, float, double, long double */
-    m->kind = k < SV_ENUM ? k : k - SV_ENUM + SV_FLOAT;
+    switch (kcls) {
+    case 1: m->kind = SV_CHAR + (int) nd_below (3); break;
+    case 2: m->kind = SV_BOOL; break;
+    case 3: m->kind = SV_SHORT + (int) nd_below (2); break;
+    case 4: m->kind = SV_INT + (int) nd_below (2); break;
+    case 5: m->kind = SV_LONG + (int) nd_below (4); break;
+    case 6: m->kind = SV_FLOAT; break;
+    case 7: m->kind = SV_DOUBLE; break;
+    case 8: m->kind = SV_LDOUBLE; break;
+    default: {
+      int k = (int) nd_below (15); /* the 12 integer kinds, float, double, long double */
+      m->kind = k < SV_ENUM ? k : k - SV_ENUM + SV_FLOAT;
+    }
+    }
   } else
     m->kind = cls == H_C_PTR ? SV_PTR : SV_ENUM;
   m->arr_n = is_arr ? 1 + (int) nd_below (3) : 0;
@@ -133,6 +165,8 @@ static void h_nd_scalar (sv_member *m, int cls, int is_arr) {
     m->named = nd_bool ();
     H_ASSUME ((unsigned long) m->width <= bits && (m->kind != SV_BOOL || m->width <= 1));
     H_ASSUME (m->width > 0 || !m->named);
+    if (H_EXCL & 1) H_ASSUME (m->named || m->width == 0);
+    if (H_EXCL & 2) H_ASSUME (m->width != 0);
   }
 }
 
@@ -149,12 +183,12 @@ static void h_nd_description (void) {
     sv_member *m = &h_top.m[i];
     int cls = h_shape[i] & 7, is_arr = (h_shape[i] & H_C_ARR) != 0;
     if (cls < H_C_NESTED) {
-      h_nd_scalar (m, cls, is_arr);
+      h_nd_scalar (m, cls, is_arr, h_kcls[i]);
       continue;
     }
     h_sub[i].is_union = H_IS_UNION (cls);
     h_sub[i].n = H_NSUB; /* concrete: a symbolic member count makes the list links symbolic */
-    for (int j = 0; j < H_NSUB; j++) h_nd_scalar (&h_sub[i].m[j], H_C_ARITH, H_F_SUBARR && j == 0);
+    for (int j = 0; j < H_NSUB; j++) h_nd_scalar (&h_sub[i].m[j], H_C_ARITH, H_F_SUBARR && j == 0, h_ksub[j]);
     H_ASSUME (h_has_named (&h_sub[i])); /* empty aggregates are a GNU extension outside the model */
     m->kind = h_sub[i].is_union ? SV_UNION : SV_STRUCT;
     m->width = -1;
@@ -163,6 +197,10 @@ static void h_nd_description (void) {
     m->arr_n = is_arr ? 1 + (int) nd_below (2) : 0;
   }
   H_ASSUME (h_has_named (&h_top));
+  if (H_EXCL & 4)
+    for (int i = 1; i < H_N; i++)
+      H_ASSUME (!(h_top.m[i].width > 0 && h_top.m[i - 1].width > 0
+                  && sv_scalar_size (h_top.m[i].kind) > sv_scalar_size (h_top.m[i - 1].kind)));
 }
 
 /* ---------------- description -> c2mir graph ---------------- */
@@ -382,8 +420,13 @@ void harness (void) {
         && m->bitpos != h_top.m[i - 1].bitpos + (unsigned long) h_top.m[i - 1].width)
       H_WITNESS ("bit-field did not fit and moved to the next unit");
 #endif
+#if !(H_EXCL & 2)
     if (m->width == 0) H_WITNESS ("zero-width bit-field");
+#endif
+#if !(H_EXCL & 1)
     if (m->width > 0 && !m->named) H_WITNESS ("unnamed bit-field");
+#endif
+    if (m->width > 0 && m->named) H_WITNESS ("named bit-field");
 #endif
 #if H_W_ARR
     if (m->arr_n > 1) H_WITNESS ("array member with more than one element");
@@ -475,27 +518,19 @@ void harness (void) {
           H_ASSERT (h_class_of_mir_type (t[k]) == c.c[k], "process_aggregate_arg: register class of each eightbyte");
           H_ASSERT (h_mir_type_bytes (t[k]) >= need, "process_aggregate_arg: argument register covers all bytes of its eightbyte");
         }
+#if H_W_REG
     if (!inreg && !c.memory) H_WITNESS ("register class but no registers left");
+#endif
   }
   /* reachability witnesses; which ones exist is decided per shape by props/C08.py (-DH_W_*) */
 #if H_W_MEM
   if (c.memory) H_WITNESS ("memory class");
 #endif
-#if H_W_MEM16
-  if (c.memory && h_top.size <= 16) H_WITNESS ("memory class although at most 16 bytes");
-#endif
 #if H_W_SS
   if (!c.memory && c.n == 2 && c.c[0] == SV_SSE && c.c[1] == SV_SSE) H_WITNESS ("two SSE eightbytes");
 #endif
-#if H_W_IS
-  if (!c.memory && c.n == 2 && c.c[0] == SV_INTEGER && c.c[1] == SV_SSE) H_WITNESS ("INTEGER then SSE");
-  if (!c.memory && c.n == 2 && c.c[0] == SV_SSE && c.c[1] == SV_INTEGER) H_WITNESS ("SSE then INTEGER");
-#endif
 #if H_W_X87
   if (!c.memory && c.c[0] == SV_X87) H_WITNESS ("X87 class (long double alone)");
-#endif
-#if H_W_I1
-  if (!c.memory && c.n == 1 && c.c[0] == SV_INTEGER) H_WITNESS ("one INTEGER eightbyte");
 #endif
 #endif
   H_WITNESS ("end");
